@@ -869,7 +869,22 @@ class Interp:
         if isinstance(e, ast.Lambda):
             return Func("<lambda>")
         if isinstance(e, ast.JoinedStr):
-            return Str.hole()
+            out: AV = Str.lit("")
+            for part in e.values:
+                if isinstance(part, ast.Constant) and isinstance(part.value, str):
+                    piece: AV = Str.lit(part.value)
+                elif isinstance(part, ast.FormattedValue) and part.conversion == -1 and part.format_spec is None:
+                    v = self.ev(part.value, env, f)
+                    if isinstance(v, Str):
+                        piece = v
+                    elif isinstance(v, Int) and v.val is not None:
+                        piece = Str.lit(str(v.val))
+                    else:
+                        piece = Str.hole()
+                else:
+                    piece = Str.hole()
+                out = str_concat(out, piece)   # type: ignore[arg-type]
+            return out
         if isinstance(e, ast.Starred):
             return self.ev(e.value, env, f)
         return TOP
